@@ -248,6 +248,24 @@ def run(ctx, host=None):
             chk.ok(R1c, cl.qualname, nd, detail='session closed', nontrivial=False)
         else:
             chk.bad(R1c, cl.qualname, nd, f'Container.close() no longer calls {nd}: the SQLite file descriptors of that session stay open', where=f'{cl.module.relpath}:{cl.lineno}')
+    # close() always does its work: no early return, the operation session is closed at the top level of the body, and the container session under nothing
+    # but its own None test (a "already closed" flag makes the second close of a re-used handle a no-op and leaks what was opened in between)
+    early = [n for n in walk_local(cl.node) if isinstance(n, ast.Return)]
+    top_close = any(isinstance(st, ast.Expr) and isinstance(st.value, ast.Call) and norm(st.value.func) == 'self._close_operation_session' for st in cl.node.body)
+    guards = []
+    for n in walk_local(cl.node):
+        if isinstance(n, ast.Call) and isinstance(n.func, ast.Attribute) and n.func.attr == 'close' and '_container_session' in norm(n.func.value):
+            a = getattr(n, '_parent', None)
+            while a is not None and a is not cl.node:
+                if isinstance(a, ast.If) and not (norm(a.test).endswith('is not None') and '_container_session' in norm(a.test)):
+                    guards.append(a)
+                a = getattr(a, '_parent', None)
+    if early or not top_close or guards:
+        w = (early or guards or [cl.node])[0]
+        chk.bad(R1c, cl.qualname, norm(w)[:80] if not isinstance(w, ast.FunctionDef) else 'close()', 'close() does not always close: an early return / extra guard / conditional call skips closing the sessions on some path '
+                '(e.g. an "already closed" flag that is not re-armed when the handle is used again): the SQLite descriptors opened after the first close stay open', where=f'{cl.module.relpath}:{getattr(w, "lineno", cl.lineno)}')
+    else:
+        chk.ok(R1c, cl.qualname, 'unconditional', detail='no early return; operation session closed at top level; container session under its own None test only', nontrivial=False)
     ndispose = sum(1 for ff in (cl, prog.fn('container:Container._close_operation_session')) for n in walk_local(ff.node)
                    if isinstance(n, ast.Call) and isinstance(n.func, ast.Attribute) and n.func.attr == 'dispose')
     badguard = None
